@@ -567,6 +567,17 @@ class Interp:
             for x in self.iterate(vals[0]):
                 out = out * x
             return out
+        if fn in ("np.isclose", "numpy.isclose", "np.allclose", "numpy.allclose", "math.isclose"):
+            a, b = vals[0], vals[1]
+            if isinstance(a, Node) or isinstance(b, Node):
+                raise AnalysisError("absint: isclose on nodes")
+            if fn == "math.isclose":
+                rtol, atol = kw.get("rel_tol", 1e-09), kw.get("abs_tol", 0.0)
+                return abs(a - b) <= max(rtol * max(abs(a), abs(b)), atol)
+            rtol, atol = kw.get("rtol", 1e-05), kw.get("atol", 1e-08)
+            return abs(a - b) <= atol + rtol * abs(b)
+        if fn in ("abs", "round", "min", "max") and all(isinstance(v, (int, float)) for v in vals):
+            return {"abs": abs, "round": round, "min": min, "max": max}[fn](*vals)
         if fn == "hasattr":
             x, name = vals
             return isinstance(x, Node) and (name in x.f or name == "dtype")
